@@ -256,16 +256,23 @@ def faults_for_site(site, level='full', trunc_step=1):
         out.append(('garbage', sz, n))
     out.append(('dup',))
     if site['packet']:
-        for idx, _name, _true in site['fields']:
+        for idx, _name, true in site['fields']:
             for mode in ('zero', 'minus1', 'plus1', 'huge31', 'huge32'):
+                if mode == 'zero' and true == 0:
+                    continue        # not a deviation
                 out.append(('len', idx, mode))
         for t in (0, 1, 2, 21, 255):
             out.append(('type', t))
         for d in (1, 2, 3):
             out.append(('debug', d))
-    else:
+    elif site['label'] in ('banner', 'pre_banner'):
         out.append(('prelines', 1))
         out.append(('prelines', 3))
+    elif site['label'] == 'ssh1_pubkey':
+        for off in sorted(set([0, 3, 4, n // 2, n - 5, n - 1])):
+            if 0 <= off < n:
+                out.append(('flip', off, 0x01))
+                out.append(('flip', off, 0x80))
     if level != 'message':
         out.append(('seg1',))
         for k in range(1, n):
